@@ -253,10 +253,28 @@ func c06HostsEntry(r *Rng, ks []sshKeyT) sshItem {
 	return sshItem{kind: 0, line: line, key: key, hosts: strings.Join(hs, ", ")}
 }
 
-var c06BlankLF = []string{"", "", " ", "\t", "  \t ", "\v", "\f", "\r", " \r"}
-var c06BlankCRLF = []string{"", "", " ", "\t", "  \t ", "\v", "\f"}
-var c06CommentWs = []string{"", "", " ", "\t"}
-var c06CommentText = []string{"", " comment", "ssh-rsa AAAAB3NzaC1yc2E not a key", " with\ttab", "#", " ünïcode", " ends with space "}
+// white-space-only lines: ASCII blanks, and the Unicode white space bytes.TrimSpace knows (NBSP, NEL, OGHAM SPACE MARK,
+// EM SPACE, LINE SEPARATOR, NARROW NBSP, MEDIUM MATHEMATICAL SPACE, IDEOGRAPHIC SPACE)
+var c06UniSpaces = []string{"\xc2\xa0", "\xc2\x85", "\xe1\x9a\x80", "\xe2\x80\x83", "\xe2\x80\xa8", "\xe2\x80\xaf", "\xe2\x81\x9f", "\xe3\x80\x80"}
+var c06BlankLF = []string{"", "", " ", "\t", "  \t ", "\v", "\f", "\r", " \r", "\t\t\t", "\xc2\xa0", " \xe2\x80\x83\t", "\xe3\x80\x80\xc2\x85"}
+var c06BlankCRLF = []string{"", "", " ", "\t", "  \t ", "\v", "\f", "\xc2\xa0", "\xe1\x9a\x80 ", "\xe2\x80\xa8"}
+var c06CommentWs = []string{"", "", " ", "\t", " \t ", "\xc2\xa0", "\xe2\x80\x83 ", "\v"}
+var c06CommentText = []string{"", " comment", "ssh-rsa AAAAB3NzaC1yc2E not a key", " with\ttab", "#", " ünïcode", " ends with space ",
+	" NUL \x00 inside", "\x00", " CR \r inside", " \xef\xbb\xbf BOM inside", "\xc2\xa0"}
+
+// c06Harmless: every kind of line the property calls harmless, as (kind, ws, text)
+func c06Harmless() []sshItem {
+	long := strings.Repeat(" this comment line is longer than any line buffer;", 1500) // ~75 KB
+	hs := []sshItem{{kind: 1}, {kind: 1, ws: " "}, {kind: 1, ws: "\t"}, {kind: 1, ws: " \t \t"}, {kind: 1, ws: "\v\f"},
+		{kind: 2, text: ""}, {kind: 2, text: " comment"}, {kind: 2, ws: " ", text: " indented"}, {kind: 2, ws: "\t\t", text: "tabs"},
+		{kind: 2, text: " NUL \x00\x00 bytes"}, {kind: 2, text: long}, {kind: 2, ws: "\xc2\xa0", text: " after NBSP"},
+		{kind: 2, text: " ssh-ed25519 AAAAC3NzaC1lZDI1NTE5AAAAIOiCv1id6TYq+r6BdemTegYY5ddZ6PcI6ad+sCedd4xN disabled"}}
+	for _, u := range c06UniSpaces {
+		hs = append(hs, sshItem{kind: 1, ws: u})
+	}
+	hs = append(hs, sshItem{kind: 1, ws: strings.Join(c06UniSpaces, " ")}, sshItem{kind: 2, ws: "\xe2\x80\x83\xe3\x80\x80", text: "#"})
+	return hs
+}
 
 func c06Filler(r *Rng, crlf bool) sshItem {
 	if r.Bool() {
@@ -502,6 +520,54 @@ func genC06SSH(c *Ctx) {
 				}
 			}
 		}
+	}
+	// ---- every harmless line kind in every position (before the first entry, between, after the last, everywhere),
+	//      LF and CRLF, with and without the final newline ----
+	harmless := c06Harmless()
+	for _, op := range []string{"akeys", "khosts"} {
+		e1, e2 := ent(ed), ent(rsa)
+		if op == "khosts" {
+			e1, e2 = hent("a.example", ed), hent("b.example,c.example", rsa)
+		}
+		for hi, h := range harmless {
+			for pos := 0; pos < 4; pos++ {
+				for ci, crlf := range []bool{false, true} {
+					if !c.Thorough() && (hi+pos+ci)%2 == 1 && len(h.text) < 1000 {
+						continue
+					}
+					if len(h.text) > 1000 && (pos == 3 || (crlf && pos != 1)) && !c.Thorough() {
+						continue // the 75 KB comment: a few placements are enough for the quick tier
+					}
+					var its []sshItem
+					if pos == 0 || pos == 3 {
+						its = append(its, h)
+					}
+					its = append(its, e1)
+					if pos == 1 || pos == 3 {
+						its = append(its, h)
+					}
+					its = append(its, e2)
+					if pos == 2 || pos == 3 {
+						its = append(its, h)
+					}
+					c06SSHLayoutCase(c, op, "harmless", its, crlf, 1)
+					if pos == 2 {
+						c06SSHLayoutCase(c, op, "harmless", its, crlf, 0) // the harmless line is the last one and unterminated
+					}
+				}
+			}
+		}
+		// a file of harmless lines only: readable, no entries
+		c06SSHLayoutCase(c, op, "harmless", harmless[:8], false, 1)
+		// not among the harmless kinds (property text: blank lines, comment lines, CRLF, trailing newline): a UTF-8 byte
+		// order mark makes the first line something else - an entry line still parses (the key type field is ignored), a
+		// BOM before '#' or alone on a line is a rejected line: the file is an error (model = implementation, no spec verdict)
+		bom := "\xef\xbb\xbf"
+		c06SSHCase(c, op, "bom", []byte(bom+e1.line+"\n"+e2.line+"\n"), nil, false, 1)
+		c06SSHCase(c, op, "bom", []byte(bom+"# comment\n"+e1.line+"\n"), nil, false, 1)
+		c06SSHCase(c, op, "bom", []byte(bom+"\n"+e1.line+"\n"), nil, false, 1)
+		c06SSHCase(c, op, "bom", []byte(e1.line+"\n\x00\n"), nil, false, 1)
+		c06SSHCase(c, op, "bom", []byte(e1.line+"\n\xe2\x80\x8b\n"), nil, false, 1) // ZERO WIDTH SPACE is not white space
 	}
 	// ---- malformed stream: mutations of valid files ----
 	nm := 150
